@@ -554,6 +554,11 @@ func (v *PolicyVerifier) VerifyRelativeForRef(ctx context.Context, firstEntry, l
 						slog.Debug("Setting current policy...")
 					}
 
+					slog.Debug("Validating new policy's state...")
+					if err := newPolicy.Verify(ctx); err != nil {
+						return fmt.Errorf("policy state has invalidly signed metadata: %w", err)
+					}
+
 					currentPolicy = newPolicy
 
 					if v.persistentCacheEnabled {
